@@ -139,7 +139,7 @@ func pFuncItems(s *tokStream, n int) []FuncItem {
 	var out []FuncItem
 	for i := 0; i < n; i++ {
 		m := s.next()
-		out = append(out, FuncItem{Wrapped: m == "a", A: pArg(s)})
+		out = append(out, FuncItem{Wrapped: m == "a" || m == "h", Hoist: m == "h", A: pArg(s)})
 	}
 	return out
 }
